@@ -206,7 +206,7 @@ func runC05(r *Run) {
 	rr := r.Rng
 	n := 1500
 	if r.Thorough() {
-		n = 12000
+		n = 30000
 	}
 	files := []string{"components/Card.vuego", "components/RowItem.vuego", "components/ui/BadgeBox.vuego"}
 	for c := 0; c < n; c++ {
